@@ -23,7 +23,7 @@ def flatten(obs_list):
     return lines, owner
 
 
-def validate_traces(run, obs_list, module, cfg, name, max_report=5, dfs=False):
+def validate_traces(run, obs_list, module, cfg, name, max_report=5, dfs=False, relax=False):
     """TLC trace validation of concatenated schedules; a rejected schedule is reported and removed,
     the rest is validated again (so one defect does not hide the others)."""
     pending = list(obs_list)
@@ -35,7 +35,7 @@ def validate_traces(run, obs_list, module, cfg, name, max_report=5, dfs=False):
         path = os.path.join(run.wd, "%s_%d.ndjson" % (name, rounds))
         with open(path, "w") as f:
             f.write("\n".join(lines) + "\n")
-        r = tlc(module, cfg, os.path.join(run.wd, "tlc_%s_%d" % (name, rounds)), env={"TRACE": path},
+        r = tlc(module, cfg, os.path.join(run.wd, "tlc_%s_%d" % (name, rounds)), env={"TRACE": path, "RELAX": "1" if relax else "0"},
                 workers=1, timeout=1200, xmx="4g", dfs=dfs, collect_replays=False)
         run.add_tlc("%s_round%d" % (name, rounds), r)
         acc = [p for p in r.prints if p.startswith('<<"ACCEPTED"')]
@@ -123,6 +123,13 @@ def main():
     [t_.join() for t_ in ths]
     if errs:
         raise errs[0] if isinstance(errs[0], ToolError) else ToolError(repr(errs[0]))
+    # a schedule rejected only because of the destination's INTERMEDIATE contents is drift (the statement speaks
+    # of the final contents, the length and termination): re-validate the rejected ones without that comparison
+    if rej_all:
+        still = validate_traces(run, [o for o, _ in rej_all], "Trace_TFB", "Trace_TFB.cfg", "relaxed", max_report=50, relax=True)
+        still_ids = {id(o) for o, _ in still}
+        run.drift += len([1 for o, _ in rej_all if id(o) not in still_ids])
+        rej_all = [(o, why) for o, why in rej_all if id(o) in still_ids]
     for o, why in rej_all:
         run.violation("real TempFileBuffer left the specification: %s (result=%s)" % (why, o["obs"].get("result")),
                       {"kind": "tfb", "case": o})
